@@ -162,7 +162,8 @@ class LongHistory(Part):
         out = []
         for fam in ("4", "6"):
             for B in (0, 8):
-                out.append({"fam": fam, "B": B, "env": ["md5", "saltForTest"], "n": n})
+                # an IPv4 request adds at most 32 memo entries, an IPv6 request up to 128
+                out.append({"fam": fam, "B": B, "env": ["md5", "saltForTest"], "n": n * (8 if fam == "4" else 1)})
         out.append({"fam": "4", "B": 0, "env": ["md5", "seed%d" % self.seed], "n": n,
                     "prefixes": ["10.0.0.0/8", "200.0.0.0/7"], "networks": ["10.9.0.0/16"]})
         return out
